@@ -4,6 +4,7 @@ package main
 // (DESIGN §2.3, Appendix A.5).
 
 import (
+	"fmt"
 	"strings"
 
 	"golang.org/x/tools/go/ssa"
@@ -189,12 +190,31 @@ func (w *Worker) schedule(s *State) bool {
 		}
 		return ns
 	}
+	// wake: a visible write re-enables yielded threads. spin: a thread that keeps loading the same
+	// cell while nobody writes is busy-waiting; after 3 such loads it is treated like a Gosched yield.
 	wake := func(st *State, c cand) {
+		th := st.threads[c.t]
 		if c.sig.kind == "write" {
-			for t, th := range st.threads {
+			st.writeSeq++
+			for t, o := range st.threads {
 				if t != c.t {
-					th.yielded = false
+					o.yielded = false
 				}
+			}
+			th.spinCell, th.spinCount = "", 0
+			return
+		}
+		if c.sig.kind == "load" {
+			// same cell loaded again at the same program point with no write by anyone in between
+			key := c.sig.cell + "@" + progPoint(th, st, c.t)
+			if th.spinCell == key && th.spinSeq == st.writeSeq {
+				th.spinCount++
+				if th.spinCount >= 3 {
+					th.yielded = true
+					th.spinCount = 0
+				}
+			} else {
+				th.spinCell, th.spinSeq, th.spinCount = key, st.writeSeq, 1
 			}
 		}
 	}
@@ -227,4 +247,17 @@ func isJoinFrames(w *Worker, s *State, frames []*Frame) bool {
 		return false
 	}
 	return isJoin(w, s, frames[len(frames)-1])
+}
+
+// progPoint identifies the instruction a thread is about to execute.
+func progPoint(th *Thread, st *State, t int) string {
+	fr := th.frames
+	if t == st.cur {
+		fr = st.frames
+	}
+	if len(fr) == 0 {
+		return ""
+	}
+	f := fr[len(fr)-1]
+	return fmt.Sprintf("%p/%d/%d", f.fn, f.block.Index, f.ip)
 }
